@@ -1,7 +1,7 @@
 """C11 — extras: matching, simplify_extras, with_extra_marker, top_level_extra."""
 from .. import build, framework as fw, markers, trees, semantics
 from ..sexp import S, unS, dump, pretty
-from . import c02
+from . import c02, c10
 
 
 def extras_marker(rng, n):
@@ -135,7 +135,7 @@ def run(ctx):
                 if (r1[1] == 'T') != want or (r2[1] == 'T') != (not want):
                     ctx.failure('extra == %r with active %r evaluates to %s / != to %s' % (name, active, r1[1], r2[1]), {'name': name, 'active': active})
         # top_level_extra(): `extra == e` only if e is active in every satisfying assignment, i.e. marker AND extra != e is unsatisfiable
-        cmds, meta = [], []
+        cmds, meta, tl_cmds, tl_meta = [], [], [], []
         for a in regs:
             r = sess.ask(['tlextra', str(a)])
             ctx.oracle_cases += 1
@@ -143,13 +143,20 @@ def run(ctx):
                 ctx.failure('top_level_extra panicked', {'marker': markers.describe(sess, a)})
                 continue
             ctx.count('tlextra:' + ('none' if r[1] == 'none' else 'some'))
-            if r[1] == 'none':
-                continue
-            ex = r[1]
             try:
                 ma = sess.model(a)
             except Exception:
                 continue
+            # the extracted model of top_level_extra (the loop over the model's to_dnf) on the same diagram
+            try:
+                want = 'none' if r[1] == 'none' else ['some', c10.typed_to_model(r[1])]
+                tl_cmds.append(['tlextra', ma])
+                tl_meta.append((a, want))
+            except trees.Unmodelled:
+                pass
+            if r[1] == 'none':
+                continue
+            ex = r[1]
             if ex[0] != 'extra' or ex[1] != 'eq':
                 ctx.failure('top_level_extra returned something other than `extra == e`: %s' % dump(ex)[:100], {'marker': markers.describe(sess, a)})
                 continue
@@ -158,6 +165,10 @@ def run(ctx):
             neq = ['B', ['ex', arb, name], 'F', 'T']
             cmds.append(['and', ma, neq])
             meta.append((a, name))
+        for (a, want), got in zip(tl_meta, fw.batch_parallel(build.DRIVER, tl_cmds)):
+            ctx.corr_cases += 1
+            if got != want:
+                ctx.disagreement('top_level_extra ~ MarkerTree::top_level_extra', markers.describe(sess, a), dump(got)[:300], dump(want)[:300])
         outs = fw.batch_parallel(build.DRIVER, cmds)
         for (a, name), conj in zip(meta, outs):
             ctx.corr_cases += 1
